@@ -57,7 +57,7 @@ func cmdMain(args []string) int {
 		fs.Parse(args[1:])
 		o.seed, _ = strconv.Atoi(envOr("VERIF_SEED", "0"))
 		if o.timeoutS == 0 {
-			o.timeoutS = 10
+			o.timeoutS = 20
 			if o.tier == "thorough" {
 				o.timeoutS = 60
 			}
@@ -140,6 +140,7 @@ func generate(w *World, cs *Contracts, ms *ModSets, o runOpts) ([]*Obligation, [
 		}
 		rep.SourceHash = sourceHash(w, fn)
 		vc := newVC(w, cs, ms, fn, spec)
+		vc.key = key // obligations are named after the contract key (stable for closures addressed by $calls)
 		err := vc.run()
 		rep.Loops = len(vc.loops)
 		rep.Notes = sortedKeysB(vc.notes)
@@ -193,6 +194,21 @@ func generate(w *World, cs *Contracts, ms *ModSets, o runOpts) ([]*Obligation, [
 		}
 		rep := &FuncReport{Key: "unreachable " + ud.Name}
 		reps = append(reps, rep)
+		if ud.Callers {
+			ob := &Obligation{Name: ud.Name + ":callers", Kind: "callgraph", Func: ud.Name, Goal: "true", Props: ud.Props,
+				Text:   "every static call site of " + ud.To[0] + " is inside one of: " + strings.Join(ud.From, ", "),
+				Result: &SolveResult{Status: "unsat", Backend: "callgraph"}}
+			if ms == nil {
+				ob.Result = &SolveResult{Status: "error", Output: "no call graph"}
+			} else if extra, missing := ms.otherCallers(ud.To[0], ud.From); missing != "" {
+				ob.Result = &SolveResult{Status: "sat", Backend: "callgraph", Output: "function not found: " + missing}
+			} else if len(extra) > 0 {
+				ob.Result = &SolveResult{Status: "sat", Backend: "callgraph", Output: "call sites outside the allowed callers: " + strings.Join(extra, ", ")}
+			}
+			obls = append(obls, ob)
+			rep.Obligations++
+			continue
+		}
 		for _, to := range ud.To {
 			ob := &Obligation{Name: ud.Name + ":unreachable(" + to + ")", Kind: "callgraph", Func: ud.Name, Goal: "true", Props: ud.Props,
 				Text:   to + " is not reachable from " + strings.Join(ud.From, ", ") + " in the call graph of the working tree",
@@ -263,7 +279,7 @@ func verify(o runOpts) int {
 		fmt.Fprintln(os.Stderr, "govc: contract error:", err)
 		return 2
 	}
-	ms := modsetAnalysis(w)
+	ms := modsetAnalysis(w, cs)
 	tLoad := time.Since(t0).Seconds()
 	obls, reps, _, assumed := generate(w, cs, ms, o)
 	smtDir := filepath.Join(verifDir, "out", "smt", nonEmpty(o.property, "adhoc"))
